@@ -64,7 +64,7 @@ def generate(repo, modules=None) -> dict[str, str]:
         if not modules or 'Coh' in modules:
             out['Coh'] = S.coherence_module('py2lean_stmodel.py', GEN_NS, 'MalVerif.PyM MalVerif.PyM.Gen MalVerif.PySt',
                                             ['import MalVerif.Py.StLib'] + [f'import {GEN_MOD}.{m}' for m in want],
-                                            emitted, 'ModelEnv', 'the modules of MalVerif/Py/GenModelSt')
+                                            emitted, 'ModelEnv', 'the modules of MalVerif/Py/GenModelSt', fns)
         return out
     finally:
         for k, v in saved.items(): setattr(P, k, v)
